@@ -30,13 +30,16 @@ D5 = {"t": "discrete", "n": 5}
 MD = {"t": "md", "nvec": [2, 3]}
 MB = {"t": "mb", "n": 3}
 S0 = {"t": "box", "shape": [], "dtype": "float32", "low": -1, "high": 1}
+TUP = {"t": "tuple", "members": [{"t": "discrete", "n": 3}, {"t": "box", "shape": [2], "dtype": "float32", "low": -1, "high": 1}]}
+DIMG = {"t": "dict", "fields": [[0, {"t": "box", "shape": [2, 6, 6], "dtype": "uint8", "low": 0, "high": 255}],
+                                [1, {"t": "box", "shape": [3], "dtype": "float32", "low": -1, "high": 1}]]}
 DCT = {"t": "dict", "fields": [[0, {"t": "discrete", "n": 3}], [1, {"t": "box", "shape": [2], "dtype": "float32", "low": -1, "high": 1}]]}
 
 _cache = {}
 
 
 def group_of(name):
-    return name.rsplit("_", 1)[0]
+    return name.rsplit("_", 1)[0] if isinstance(name, str) else name
 
 
 def shared_ids(names):
@@ -47,37 +50,58 @@ def shared_ids(names):
     return out
 
 
-def get_agent(algo, space_spec, names=None, normalize=True):
-    key = json.dumps([algo, space_spec, names, normalize], sort_keys=True)
+def get_agent(algo, space_spec, names=None, normalize=True, variant=None):
+    """variant: None = freshly built, "clone" = agent.clone(), "reload" = saved to a checkpoint and loaded back.
+    normalize None = the constructor's default argument."""
+    key = json.dumps([algo, space_spec, names, normalize, variant], sort_keys=True)
     if key in _cache:
         return _cache[key]
+    if variant is not None:
+        base = get_agent(algo, space_spec, names, normalize)
+        if variant == "clone":
+            a = base.clone()
+        else:
+            import tempfile, os
+            d = tempfile.mkdtemp(prefix="c15_", dir=str(__import__("vlib").BUILD))
+            path = os.path.join(d, "ck.pt")
+            base.save_checkpoint(path)
+            a = type(base).load(path)
+            os.remove(path); os.rmdir(d)
+        _cache[key] = a
+        return a
     torch.manual_seed(12345)
     np.random.seed(12345)
-    sp = build_space(space_spec)
+    nzkw = {} if normalize is None else {"normalize_images": normalize}
+    if isinstance(space_spec, list):                 # one space per agent
+        sps = [build_space(x) for x in space_spec]
+        sp = sps[0]
+    else:
+        sp = build_space(space_spec)
+        sps = [sp] * (len(names) if names else 1)
     if algo == "DQN":
         from agilerl.algorithms.dqn import DQN
-        a = DQN(sp, spaces.Discrete(3), normalize_images=normalize)
+        a = DQN(sp, spaces.Discrete(3), **nzkw)
     elif algo == "PPO":
         from agilerl.algorithms.ppo import PPO
-        a = PPO(sp, spaces.Discrete(3), normalize_images=normalize)
+        a = PPO(sp, spaces.Discrete(3), **nzkw)
     elif algo == "DDPG":
         from agilerl.algorithms.ddpg import DDPG
-        a = DDPG(sp, spaces.Box(-1, 1, (2,)), normalize_images=normalize)
+        a = DDPG(sp, spaces.Box(-1, 1, (2,)), **nzkw)
     elif algo == "TD3":
         from agilerl.algorithms.td3 import TD3
-        a = TD3(sp, spaces.Box(-1, 1, (2,)), normalize_images=normalize)
+        a = TD3(sp, spaces.Box(-1, 1, (2,)), **nzkw)
     elif algo == "CQN":
         from agilerl.algorithms.cqn import CQN
-        a = CQN(sp, spaces.Discrete(3), normalize_images=normalize)
+        a = CQN(sp, spaces.Discrete(3), **nzkw)
     elif algo == "IPPO":
         from agilerl.algorithms.ippo import IPPO
-        a = IPPO([sp] * len(names), [spaces.Discrete(3)] * len(names), list(names), normalize_images=normalize)
+        a = IPPO(sps, [spaces.Discrete(3)] * len(names), list(names), **nzkw)
     elif algo == "MADDPG":
         from agilerl.algorithms.maddpg import MADDPG
-        a = MADDPG([sp] * len(names), [spaces.Box(-1, 1, (2,))] * len(names), list(names), normalize_images=normalize)
+        a = MADDPG(sps, [spaces.Box(-1, 1, (2,))] * len(names), list(names), **nzkw)
     elif algo == "MATD3":
         from agilerl.algorithms.matd3 import MATD3
-        a = MATD3([sp] * len(names), [spaces.Box(-1, 1, (2,))] * len(names), list(names), normalize_images=normalize)
+        a = MATD3(sps, [spaces.Box(-1, 1, (2,))] * len(names), list(names), **nzkw)
     else:
         raise ValueError(algo)
     _cache[key] = a
@@ -107,6 +131,58 @@ def generate(tier, rng):
                     cases.append({"kind": "prep", "algo": algo, "names": names3, "lead": lead, "input": "numpy",
                                   "normalize": True, "pat": 2, "order": order,
                                   "space": {"t": "dict", "fields": [[i, sp] for i in range(3)]}})
+    # ---- generator audit (deepening)
+    V2s = {"t": "box", "shape": [2], "dtype": "float32", "low": -1, "high": 1}
+    # agents that are not freshly built: clones and agents loaded from a checkpoint; constructor default of normalize_images
+    for algo in ["DQN", "PPO", "DDPG"]:
+        for variant in ["clone", "reload"]:
+            for lead in [[], [2]]:
+                for nz in (True, False):
+                    cases.append({"kind": "prep", "algo": algo, "variant": variant, "space": IMG, "lead": lead, "input": "numpy",
+                                  "normalize": nz, "pat": 4})
+                cases.append({"kind": "prep", "algo": algo, "variant": variant, "space": D5, "lead": lead, "input": "numpy", "normalize": True, "pat": 4})
+        for lead in [[], [2]]:
+            cases.append({"kind": "prep", "algo": algo, "space": IMG, "lead": lead, "input": "numpy", "normalize": True, "nz_default": True, "pat": 4})
+    # heterogeneous observation spaces across agents (same kind, different sizes); unsorted / non-string / multi-underscore ids
+    for algo in ["MADDPG", "MATD3"]:
+        for names in (["a_0", "a_1", "b_0"], ["b_0", "a_1", "a_0"]):
+            het = [VEC if group_of(n) == "a" else V2s for n in names]
+            for lead in [[], [2]]:
+                for order in ([0, 1, 2], [2, 1, 0], [1, 2, 0]):
+                    cases.append({"kind": "prep", "algo": algo, "names": names, "hetero": True, "lead": lead, "input": "numpy",
+                                  "normalize": True, "pat": 2, "order": order,
+                                  "space": {"t": "dict", "fields": [[i, het[i]] for i in range(3)]}})
+    odd_names = [["a_1", "a_0"], ["b_0", "a_1", "a_0"], [0, 1], ["team_a_0", "team_a_1", "team_b_0"], ["alice", "bob"]]
+    for algo in ["IPPO", "MADDPG"] + (["MATD3"] if thorough else []):
+        for names in odd_names:
+            n = len(names)
+            for E in [0, 2]:
+                for order in [list(range(n)), list(reversed(range(n)))]:
+                    cases.append({"kind": "ma_route", "algo": algo, "names": names, "E": E, "order": order, "space": VEC})
+    for names in odd_names:
+        n = len(names)
+        for order in [list(range(n)), list(reversed(range(n)))]:
+            cases.append({"kind": "ma_ippo_prep", "names": names, "E": 2, "order": order, "space": VEC, "normalize": True})
+            cases.append({"kind": "ma_assemble", "names": names, "E": 2, "width": 1, "order": order})
+    # clones / reloaded multi-agent agents; Dict and Tuple observation spaces through the shared policies
+    for algo in ["IPPO", "MADDPG"]:
+        for variant in ["clone", "reload"]:
+            for order in ([0, 1, 2], [2, 0, 1]):
+                cases.append({"kind": "ma_route", "algo": algo, "variant": variant, "names": ["a_0", "a_1", "b_0"], "E": 2,
+                              "order": order, "space": VEC})
+    for algo in ["IPPO", "MADDPG"]:
+        for sp in [DCT, TUP]:
+            for order in ([0, 1, 2], [1, 0, 2]):
+                cases.append({"kind": "ma_route", "algo": algo, "names": ["a_0", "a_1", "b_0"], "E": 2, "order": order, "space": sp})
+    # 1-D outputs (actions of Discrete spaces) and a missing agent in assemble
+    for names in [["a_0", "a_1"], ["a_0", "a_1", "b_0"]]:
+        for E in [1, 3]:
+            cases.append({"kind": "ma_assemble", "names": names, "E": E, "width": 0, "order": list(range(len(names)))})
+    cases.append({"kind": "ma_assemble", "names": ["a_0", "a_1", "b_0"], "E": 2, "width": 2, "order": [0, 2], "subset": True})
+    for names in [["a_0", "a_1"], ["a_0", "a_1", "b_0"]]:
+        for sp in [TUP, DIMG]:
+            for B in [1, 2]:
+                cases.append({"kind": "ma_stack", "algo": "MADDPG", "names": names, "space": sp, "B": B})
     # single-agent: batch vs one at a time, every permutation of a 3-element batch
     perms = list(itertools.permutations(range(3)))
     for algo in ["DQN", "PPO", "DDPG", "TD3", "CQN"]:
@@ -149,7 +225,9 @@ def generate(tier, rng):
 
 # ------------------------------------------------------------------ helpers
 def _obs_for(space_spec, lead, pat):
-    """numpy observation of a (possibly Dict) space with the given leading dims"""
+    """numpy observation of a (possibly Dict / Tuple) space with the given leading dims"""
+    if space_spec["t"] == "tuple":
+        return tuple(leaf_array(l, lead, pat + k) for k, l in enumerate(space_spec["members"]))
     if space_spec["t"] == "dict":
         return {f"k{k}": leaf_array(l, lead, pat + k) for k, l in space_spec["fields"]}
     return leaf_array(space_spec, lead, pat)
@@ -157,12 +235,16 @@ def _obs_for(space_spec, lead, pat):
 
 def _row_of(space_spec, obs, lead, i):
     B = int(np.prod(lead)) if lead else 1
+    if space_spec["t"] == "tuple":
+        return tuple(obs[k].reshape((B,) + tuple(space_shape(l)))[i] for k, l in enumerate(space_spec["members"]))
     if space_spec["t"] == "dict":
         return {f"k{k}": obs[f"k{k}"].reshape((B,) + tuple(space_shape(l)))[i] for k, l in space_spec["fields"]}
     return obs.reshape((B,) + tuple(space_shape(space_spec)))[i]
 
 
 def _take(space_spec, obs, idx):
+    if space_spec["t"] == "tuple":
+        return tuple(v[idx] for v in obs)
     if space_spec["t"] == "dict":
         return {k: v[idx] for k, v in obs.items()}
     return obs[idx]
@@ -266,7 +348,7 @@ def _ma_obs(case, pat0=1):
 
 def run_route(case):
     algo, names, E, order, sp = case["algo"], case["names"], case["E"], case["order"], case["space"]
-    agent = get_agent(algo, sp, names)
+    agent = get_agent(algo, sp, names, True, case.get("variant"))
     nE = E if E else 1
     space = build_space(sp)
     from agilerl.utils.algo_utils import preprocess_observation as P
@@ -342,8 +424,13 @@ def run_ippo_prep(case):
 def run_assemble(case):
     names, E, w, order = case["names"], case["E"], case["width"], case["order"]
     agent = get_agent("IPPO", VEC, names)
-    vals = {a: (a * 1000 + np.arange(E * w, dtype=np.float32).reshape(E, w) * 7 + 1) for a in range(len(names))}
+    w1 = max(w, 1)
+    vals = {a: (a * 1000 + np.arange(E * w1, dtype=np.float32).reshape((E, w1) if w else (E,)) * 7 + 1) for a in range(len(names))}
     outputs = {names[a]: vals[a].copy() for a in order}
+    if case.get("subset"):                       # an agent is missing: only the assembled batches are observed
+        homo = agent.assemble_homogeneous_outputs(outputs, E)
+        return {"assembled": [[gi, [int(x) for x in np.asarray(homo[g]).shape], [float(x) for x in np.asarray(homo[g]).reshape(-1)]]
+                              for gi, g in enumerate(shared_ids(names)) if g in homo], "back": []}
     homo = agent.assemble_homogeneous_outputs(outputs, E)
     assembled = [[gi, [int(x) for x in np.asarray(homo[g]).shape], [float(x) for x in np.asarray(homo[g]).reshape(-1)]]
                  for gi, g in enumerate(shared_ids(names))]
@@ -362,6 +449,8 @@ def run_stack(case):
     def members(x):
         if isinstance(x, dict):
             return [[int(str(k)[1:]), tensor1(v)] for k, v in x.items()]
+        if isinstance(x, tuple):
+            return [[i, tensor1(v)] for i, v in enumerate(x)]
         return [[0, tensor1(x)]]
     ins = [members(prepared[nm]) for nm in names]
     return {"inputs": ins, "out": members(out)}
@@ -391,8 +480,10 @@ def _route_expected(case):
 
 def coq_term(case, obs):
     k = case["kind"]
-    if obs.get("degenerate") or (k == "agent_batch"):
+    if obs.get("degenerate"):
         return None
+    if k == "agent_batch":
+        return _batch_term(case, obs)
     if "err" in obs and k != "ma_ippo_prep":
         return "false"
     if k == "agent_batch":
@@ -430,15 +521,18 @@ def coq_term(case, obs):
         sh = shared_ids(names)
         back = {a: d for a, _, d in obs["back"]}
         terms = []
+        w1 = max(case["width"], 1)
         for gi, shape, flat in obs["assembled"]:
-            mem = [a for a, nm in enumerate(names) if group_of(nm) == sh[gi]]
-            ins = "[" + "; ".join(coq_qs((a * 1000 + np.arange(E * case["width"]) * 7 + 1).tolist()) for a in mem) + "]"
+            mem = [a for a, nm in enumerate(names) if group_of(nm) == sh[gi] and a in case["order"]]
+            ins = "[" + "; ".join(coq_qs((a * 1000 + np.arange(E * w1) * 7 + 1).tolist()) for a in mem) + "]"
             terms.append(f"check_assemble {ins} {coq_qs(flat)}")
-            terms.append(f"check_disassemble {len(mem)} {coq_qs(flat)} [" + "; ".join(coq_qs(back[a]) for a in mem) + "]")
+            if not case.get("subset"):
+                terms.append(f"check_disassemble {len(mem)} {coq_qs(flat)} [" + "; ".join(coq_qs(back[a]) for a in mem) + "]")
         return "(" + " && ".join(terms) + ")%bool"
     if k == "ma_stack":
         sp = case["space"]
-        leaves = dict((kk, l) for kk, l in sp["fields"]) if sp["t"] == "dict" else {0: sp}
+        leaves = (dict((kk, l) for kk, l in sp["fields"]) if sp["t"] == "dict" else
+                  dict(enumerate(sp["members"])) if sp["t"] == "tuple" else {0: sp})
         terms = []
         for kk, t in obs["out"]:
             image = leaves[kk]["t"] == "box" and len(leaves[kk]["shape"]) == 3
@@ -446,6 +540,30 @@ def coq_term(case, obs):
             terms.append(f"check_stack {_b(image)} {ts} (Some {coq_tq(t['shape'], t['data'])})")
         return "(" + " && ".join(terms) + ")%bool"
     return None
+
+
+def _batch_term(case, obs):
+    """single-agent get_action on a permuted batch vs singles, against get_action_model (row-wise network)"""
+    sp, perm = case["space"], case["perm"]
+    if sp["t"] in ("dict", "tuple"):
+        return None                                   # Dict observations: oracle only
+    if "match" in obs and obs["match"] != perm:
+        return None                                   # not row-wise (training-mode BatchNorm): reported by the oracle
+    n = len(perm)
+    if "err" in obs:
+        base = _obs_for(sp, [n], 1)
+        seen = "None"
+    else:
+        base = _obs_for(sp, [n], obs["pat"])
+        seen = "(Some " + coq_nats(obs["match"]) + ")"
+    batch = base[list(perm)]
+    singles = "[" + "; ".join(coq_tq(list(base[i].shape), base[i].reshape(-1).tolist()) for i in range(n)) + "]"
+    # rank-0 Box: repaired semantics iff the tree gives the scalar a feature axis
+    r0 = "false"
+    if sp["t"] == "box" and sp["shape"] == []:
+        from agilerl.utils.algo_utils import preprocess_observation as P
+        r0 = _b(P(np.zeros((2,), dtype=np.float32), build_space(sp)).dim() == 2)
+    return (f"check_batch {r0} true true {coq_leaf(sp)} {coq_tq(list(batch.shape), batch.reshape(-1).tolist())} {singles} {seen}")
 
 
 def _ippo_prep_in_agent_order(case, obs):
@@ -519,7 +637,7 @@ def oracle(case, obs):
                                      f"one block of {nE} rows per agent {mem}"))
                 break
     elif k == "ma_assemble":
-        E, w = case["E"], case["width"]
+        E, w = case["E"], max(case["width"], 1)
         for a, shape, flat in obs["back"]:
             want = (a * 1000 + np.arange(E * w) * 7 + 1).astype(np.float64)
             if shape[0] != E or not np.array_equal(np.asarray(flat), want):
@@ -528,7 +646,8 @@ def oracle(case, obs):
                 break
     elif k == "ma_stack":
         sp = case["space"]
-        leaves = dict((kk, l) for kk, l in sp["fields"]) if sp["t"] == "dict" else {0: sp}
+        leaves = (dict((kk, l) for kk, l in sp["fields"]) if sp["t"] == "dict" else
+                  dict(enumerate(sp["members"])) if sp["t"] == "tuple" else {0: sp})
         for kk, t in obs["out"]:
             image = leaves[kk]["t"] == "box" and len(leaves[kk]["shape"]) == 3
             ins = [np.asarray(dict(m)[kk]["data"]).reshape(dict(m)[kk]["shape"]) for m in obs["inputs"]]
